@@ -493,7 +493,7 @@ Qed.
 Theorem step_rw st e st' : RW st -> step st e = ROk st' -> RW st'.
 Proof.
   intros [HW H] E. split; [eapply step_winv; eassumption|]. revert E.
-  destruct e as [c adm|c b totals|order|s b|c|s| |s|nodes newslots|ch]; cbn [step].
+  destruct e as [c adm|c b totals|order|s b|c|s| |s|nodes newslots|ch|da dd]; cbn [step].
   - destruct (lookup c (clients st)) eqn:Ec; intro E; apply ROk_inj in E; subst st'; [exact H|].
     match goal with |- RInv (set_client ?x _ _) => apply (RInv_frame x); try reflexivity end. exact H.
   - intro E; apply ROk_inj in E; subst st'. apply ensure_dials_rw. unfold client_data.
@@ -525,6 +525,10 @@ Proof.
     + intros s sv mid slot Hs Hin Hk. exact (HA s sv mid slot Hs Hin Hk).
     + exact HN.
   - intro E; apply ROk_inj in E; subst st'. apply (RInv_frame st); try reflexivity. exact H.
+  - intro E; apply ROk_inj in E; subst st'. unfold set_dialable. apply RInv_set_pools; [exact H|].
+    destruct H as (HP & _). unfold PInv in HP. apply Forall_forall. intros q Hq. apply in_map_iff in Hq.
+    destruct Hq as (p0 & <- & Hp0). rewrite Forall_forall in HP. specialize (HP p0 Hp0).
+    destruct (beqb (pp_addr p0) da); [|exact HP]. intros x Hx. cbn [pp_conns pp_addr] in *. apply HP, Hx.
 Qed.
 
 Theorem run_rw evs : forall st st', RW st -> run st evs = ROk st' -> RW st'.
